@@ -5,6 +5,7 @@ use std::path::PathBuf;
 pub mod c01;
 pub mod c04;
 pub mod c05;
+pub mod c07;
 pub mod c08;
 pub mod c09;
 pub mod c10;
@@ -34,6 +35,7 @@ pub fn run(id: &str, ctx: &Ctx) -> i32 {
         "C04" => c04::run04(ctx),
         "C05" => c05::run05(ctx),
         "C06" => c04::run06(ctx),
+        "C07" => c07::run07(ctx),
         "C08" => c08::run08(ctx),
         "C09" => c09::run(ctx),
         "C10" => c10::run(ctx),
